@@ -8,7 +8,7 @@ PROP = 'C03'
 RULE = ("record lists written with VbsWriter (class API, write_many, context manager) or vbs_list_to_bytes and read back "
         "with VbsReader / vbs_bytes_to_list, blocked and unblocked: every single-record length 1..6000 in both formats "
         "(exhaustive), multi-record files whose prefixes and record ends fall on payload offsets 1008..1016 mod 1012, "
-        "contents with 0x00 / 0x40 runs and embedded zero lengths, the convenience functions with their default arguments on 0x40-filled data, the configured maximum changed at run time, random lists. Non-trivial = more than one record, or a "
+        "contents with 0x00 / 0x40 runs and embedded zero lengths, the convenience functions with their default arguments on 0x40-filled data, the configured maximum changed at run time, one-shot iterators as input, files past 64 KiB, random lists. Non-trivial = more than one record, or a "
         "record/prefix touching a block boundary, or special content; distinct = distinct (format, api, record list)")
 TRUSTED = ["Model/Vbs.lean models VbsWriter.write/close, VbsReader.__next__, Block1014, Unblock1014 and the BytesIO file "
            "position semantics (hand-written; tied by this correspondence)",
@@ -35,6 +35,14 @@ def write_file(case, recs):
         return mciipm.vbs_list_to_bytes(recs, blocked=blocked)
     if api == 'funcdef':      # the convenience function with its defaults (no keyword at all): unblocked
         return mciipm.vbs_list_to_bytes(recs)
+    if api == 'funcgen':      # the records handed over as a one-shot iterator (the parameter is annotated `iter`)
+        return mciipm.vbs_list_to_bytes((r for r in recs), blocked=blocked)
+    if api == 'manygen':      # write_many fed from a generator
+        f = KeepOpen()
+        w = mciipm.VbsWriter(f, blocked=blocked)
+        w.write_many(iter(recs))
+        w.close()
+        return f.getvalue()
     f = KeepOpen()
     if api == 'with':
         with mciipm.VbsWriter(f, blocked=blocked) as w:
@@ -68,9 +76,9 @@ def impl_eval_inner(case):
     recs = records_of(case)
     blocked = bool(case['b'])
     data = write_file(case, recs)
-    if case.get('api') in ('func', 'funcdef'):
+    if case.get('api') in ('func', 'funcdef', 'funcgen'):
         try:
-            back = mciipm.vbs_bytes_to_list(data, blocked=blocked) if case['api'] == 'func' else mciipm.vbs_bytes_to_list(data)
+            back = mciipm.vbs_bytes_to_list(data, blocked=blocked) if case['api'] != 'funcdef' else mciipm.vbs_bytes_to_list(data)
             exc = None
         except Exception as ex:  # noqa
             back, exc = [], ex
@@ -149,6 +157,13 @@ def explore(run, tier):
         cases.append({'b': 0, 'hex': ['40' * n], 'api': 'funcdef'})
         cases.append({'b': 0, 'hex': ['40' * 800, '40' * n, '40' * 800], 'api': 'funcdef'})
         cases.append({'b': 0, 'lens': [n, 800, n], 'api': 'funcdef'})
+    # one-shot iterators as input; files of more than 64 KiB (65+ blocks), blocked and unblocked
+    for b in (0, 1):
+        for lens in ([5], [1, 2, 3], [1000, 1012, 7], [ml]):
+            cases.append({'b': b, 'lens': lens, 'api': 'funcgen'})
+            cases.append({'b': b, 'lens': lens, 'api': 'manygen'})
+        for count, size in ((70, 1000), (66, 1008), (140, 997), (30, ml)):
+            cases.append({'b': b, 'lens': [size] * count, 'api': apis[(count + b) % 3]})
     # the configured maximum changed at run time: records up to the NEW maximum must survive
     for newmax in (ml + 2000, 2 * ml, 100, 1):
         for b in (0, 1):
